@@ -43,6 +43,41 @@ def float_predict(p, cse, e, repeat=False):
     return pyh.gate_guard(go)
 
 
+def float_alias_problems(p, cse, e1, e2):
+    """Real code in floats: predict(e1), keep the result, predict again (chained on the result, and at e2):
+    the kept result and the inputs must not change."""
+
+    def go():
+        probs = []
+        with quiet():
+            pn, sn = pyh.noise_vals_from_env(p, e1)
+            ekf = pyh.build_ekf_float(p, e1, cse=cse, pn=pn, sn=sn)
+            st = ekf.State(**{s: float(e1[s]) for s in p.state})
+            ct = ekf.Control(**{c: float(e1[c]) for c in p.control})
+            cov = ekf.Covariance.from_data(pyh.float_cov(p.state, e1))
+            r1 = ekf.process_model(float(e1[p.dt]), st, cov, ct)
+            keep = (np.array(r1.state.data, dtype=float).copy(), np.array(r1.covariance.data, dtype=float).copy())
+            ins = (st.data.copy(), cov.data.copy())
+            # chained use: feed the result back in
+            r2 = ekf.process_model(float(e1[p.dt]), r1.state, r1.covariance, ct)
+            if not (np.array_equal(keep[0], r1.state.data) and np.array_equal(keep[1], r1.covariance.data)):
+                probs.append("the result of the first prediction changed when it was fed back into a second prediction")
+            st2 = ekf.State(**{s: float(e2[s]) for s in p.state})
+            ct2 = ekf.Control(**{c: float(e2[c]) for c in p.control})
+            cov2 = ekf.Covariance.from_data(pyh.float_cov(p.state, e2))
+            ekf.process_model(float(e2[p.dt]), st2, cov2, ct2)
+            if not (np.array_equal(keep[0], r1.state.data) and np.array_equal(keep[1], r1.covariance.data)):
+                probs.append("the result of the first prediction changed after an unrelated later prediction")
+            if not (np.array_equal(ins[0], st.data) and np.array_equal(ins[1], cov.data)):
+                probs.append("the inputs of the first prediction were modified")
+        return probs
+
+    try:
+        return pyh.gate_guard(go)
+    except pyh.GateRejected:
+        return []
+
+
 def spec_float(p, e):
     ss, sc = p.s_state(), p.s_control()
     f = [X.evalf(p.update[s], e) for s in ss]
@@ -125,136 +160,180 @@ def task(p, cse, tier, seed):
             snap = (st.data.copy(), cov.data.copy(), ct.data.copy())
             r1 = ekf.process_model(SymReal(env[p.dt]), st, cov, ct)
             after = (st.data.copy(), cov.data.copy(), ct.data.copy())
+            r1_snap = (r1.state.data.copy(), r1.covariance.data.copy())
             r2 = ekf.process_model(SymReal(env[p.dt]), st, cov, ct)
             # history dimension: a later call on the same filter object with independent inputs
             st3 = ekf.State(**pyh.sym_state_kwargs(p.state, env2))
             ct3 = ekf.Control(**pyh.sym_state_kwargs(p.control, env2))
             cov3 = ekf.Covariance.from_data(Psym2.copy())
             r3 = ekf.process_model(SymReal(env2[p.dt]), st3, cov3, ct3)
-        return r1, r2, snap, after, r3
+            # results handed out earlier must not change when the filter is used again (no aliasing of buffers)
+            stable1 = all(lift(a).eq(lift(b)) for A, B in zip(r1_snap, (r1.state.data, r1.covariance.data)) for a, b in zip(A.reshape(-1), B.reshape(-1)))
+            still_inputs = all(lift(a).eq(lift(b)) for A, B in zip(snap, (st.data, cov.data, ct.data)) for a, b in zip(A.reshape(-1), B.reshape(-1)))
+            r1 = type("R", (), {"state": ekf.State.from_data(r1_snap[0]), "covariance": ekf.Covariance.from_data(r1_snap[1])})()
+        return r1, r2, snap, after, r3, (stable1 and still_inputs)
 
     leaves = explore(harness, assumes=assumes, config={"gate": "assume"})
     part.leaves(leaves)
-    if len(leaves) != 1 or leaves[0].status != "ok":
-        part.harness_error(f"{key_base}: expected one ok path, got {leaves}")
+    bad_leaves = [l for l in leaves if l.status != "ok"]
+    if bad_leaves:
+        # the real code raised on a feasible symbolic path: confirm concretely
+        for e in seeded_envs(random.Random(seed + 5), 6):
+            try:
+                float_predict(p, cse, e, repeat=True)
+            except pyh.GateRejected:
+                continue
+            except Exception as ex:
+                path = write_replay(PID, {"key": key_base + "/raises", "info": {"program": p.id, "cse": cse}, "inputs": e, "exception": f"{type(ex).__name__}: {ex}"})
+                part.violation(key_base + "/raises", f"process_model raises {type(ex).__name__}: {ex}", path)
+                return part.d
+        part.harness_error(f"{key_base}: symbolic path raised {bad_leaves[0]}; not reproduced concretely")
         return part.d
-    r1, r2, snap, after, r3 = leaves[0].value
-    reach(part, key_base + "/assumptions-sat", assumes + pyh.diag_dominant(p.state))
-    part.extra("gate_assumptions", len(leaves[0].gate_assumed))
+    base_assumes = assumes
+    multi = len(leaves) > 1
+    part.extra("paths_per_config", [len(leaves)])
+    for li, leaf in enumerate(leaves):
+        assumes = base_assumes + leaf.pc
+        if multi:
+            from .common import solve as _solve
 
-    # encoding validation
-    for e, got in conc:
+            if _solve(leaf.assumes + leaf.pc, 5000).status == "unsat":
+                continue
+            key_base = f"{p.id}/cse={int(cse)}/path{li}"
+        r1, r2, snap, after, r3, stable1 = leaf.value
+        from .common import Q as _Q
+
+        part.record(_Q("unsat" if stable1 else "sat", None, 0.0, ""), f"{key_base}: results handed out earlier and the caller's inputs are unchanged by later calls on the same filter (no aliasing)")
+        if not stable1:
+            es = seeded_envs(random.Random(seed + 9), 2)
+            probs = float_alias_problems(p, cse, es[0], es[1])
+            if probs:
+                path = write_replay(PID, {"key": f"{p.id}/cse={int(cse)}/aliasing", "info": {"program": p.id, "cse": cse, "what": "aliasing"}, "inputs": {"first": es[0], "second": es[1]}, "problems": probs})
+                part.violation(f"{p.id}/cse={int(cse)}/aliasing", f"process_model results/inputs change when the filter is used again: {probs[0]}", path)
+            else:
+                part.d["inconclusive"].append(f"{key_base}: symbolic aliasing not reproduced concretely")
+        if multi:
+            # encoding-validation points belong to whichever path their inputs select
+            conc_here = []
+        else:
+            conc_here = conc
+        reach(part, key_base + "/assumptions-sat", assumes + pyh.diag_dominant(p.state))
+        part.extra("gate_assumptions", len(leaf.gate_assumed))
+
+        # encoding validation
+        for e, got in conc_here:
+            for i, s in enumerate(ss):
+                v = zeval(lift(r1.state.data[i, 0]), e)
+                if not approx_equal(float(v), float(got["state"][i])):
+                    part.harness_error(f"{key_base}: encoding validation state[{s}] {v} vs {got['state'][i]}")
+            for i in range(n):
+                for j in range(n):
+                    v = zeval(lift(r1.covariance.data[i, j]), e)
+                    if not approx_equal(float(v), float(got["cov"][i, j]), rel=1e-6, abs_=1e-8):
+                        part.harness_error(f"{key_base}: encoding validation cov[{i},{j}] {v} vs {got['cov'][i, j]}")
+
+        wit = pyh.diag_dominant(p.state)
         for i, s in enumerate(ss):
-            v = zeval(lift(r1.state.data[i, 0]), e)
-            if not approx_equal(float(v), float(got["state"][i])):
-                part.harness_error(f"{key_base}: encoding validation state[{s}] {v} vs {got['state'][i]}")
-        for i in range(n):
-            for j in range(n):
-                v = zeval(lift(r1.covariance.data[i, j]), e)
-                if not approx_equal(float(v), float(got["cov"][i, j]), rel=1e-6, abs_=1e-8):
-                    part.harness_error(f"{key_base}: encoding validation cov[{i},{j}] {v} vs {got['cov'][i, j]}")
 
-    wit = pyh.diag_dominant(p.state)
-    for i, s in enumerate(ss):
-
-        def replay(e, i=i):
-            got = float_predict(p, cse, e)
-            f, _ = spec_float(p, e)
-            return {"impl": float(got["state"][i]), "spec": f[i]}
-
-        prove_equal(part, PID, f"{key_base}/state[{s}]==f", lift(r1.state.data[i, 0]), specf[s], assumes, tmo, replay=replay, key=f"{key_base}/state[{s}]", info={"program": p.id, "cse": cse, "what": "state", "name": s}, all_vars=allv, witness_constraints=wit, seeded_envs=seeded_envs)
-    for i in range(n):
-        for j in range(n):
-
-            def replay(e, i=i, j=j):
+            def replay(e, i=i):
                 got = float_predict(p, cse, e)
-                _, Pn = spec_float(p, e)
-                return {"impl": float(got["cov"][i, j]), "spec": float(Pn[i, j])}
+                f, _ = spec_float(p, e)
+                return {"impl": float(got["state"][i]), "spec": f[i]}
 
-            prove_equal(part, PID, f"{key_base}/cov[{ss[i]},{ss[j]}]==GPG'+VMV'", lift(r1.covariance.data[i, j]), specP[i][j], assumes, tmo, replay=replay, key=f"{key_base}/cov[{ss[i]},{ss[j]}]", info={"program": p.id, "cse": cse, "what": "cov", "i": i, "j": j}, all_vars=allv, witness_constraints=wit, seeded_envs=seeded_envs)
-
-    # second call on the same filter object with fresh inputs == specification at the new inputs
-    assumes2 = assumes + [to2(a) for a in assumes]
-
-    def float_second(e):
-        e1 = {k_: v for k_, v in e.items() if not k_.endswith("__2") and not k_.startswith("P2_")}
-        e2 = dict(e1)
-        for nm in env:
-            if nm not in p.calibration:
-                e2[nm] = e.get(env2[nm].decl().name(), 0.25)
-        for (a, b) in Pvars:
-            e2[f"P_{a}_{b}"] = e.get(f"P2_{a}_{b}", 1.0 if a == b else 0.0)
-        for (a, b) in Pvars:
-            e1.setdefault(f"P_{a}_{b}", 1.0 if a == b else 0.0)
-        for nm in env:
-            e1.setdefault(nm, 0.25)
-        return e1, e2
-
-    def float_predict_sequence(e):
-        e1, e2 = float_second(e)
-
-        def go():
-            with quiet():
-                pnv, snv = pyh.noise_vals_from_env(p, e1)
-                ekf = pyh.build_ekf_float(p, e1, cse=cse, pn=pnv, sn=snv)
-                out = None
-                for ee in (e1, e2):
-                    st_ = ekf.State(**{s_: float(ee[s_]) for s_ in p.state})
-                    ct_ = ekf.Control(**{c_: float(ee[c_]) for c_ in p.control})
-                    cov_ = ekf.Covariance.from_data(pyh.float_cov(p.state, ee))
-                    r_ = ekf.process_model(float(ee[p.dt]), st_, cov_, ct_)
-                    out = {"state": r_.state.data.reshape(-1).copy(), "cov": r_.covariance.data.copy()}
-                return out, e2
-
-        return pyh.gate_guard(go)
-
-    allv2 = dict(allv)
-    allv2.update({v.decl().name(): v for v in env2.values()})
-    for k_, v in Pvars2.items():
-        allv2[f"P2_{k_[0]}_{k_[1]}"] = v
-    wit2 = wit + pyh.diag_dominant(p.state, prefix="P2")
-    for i, s in enumerate(ss):
-
-        def replay(e, i=i):
-            got, e2 = float_predict_sequence(e)
-            f_, _ = spec_float(p, e2)
-            return {"impl": float(got["state"][i]), "spec": f_[i]}
-
-        prove_equal(part, PID, f"{key_base}/second call state[{s}]==f at the new inputs", lift(r3.state.data[i, 0]), to2(specf[s]), assumes2, tmo, replay=replay, key=f"{key_base}/second-call/state[{s}]", info={"program": p.id, "cse": cse, "what": "second-call"}, all_vars=allv2, witness_constraints=wit2)
-    for i in range(n):
-        for j in range(i, n):
-
-            def replay(e, i=i, j=j):
-                got, e2 = float_predict_sequence(e)
-                _, Pn = spec_float(p, e2)
-                return {"impl": float(got["cov"][i, j]), "spec": float(Pn[i, j])}
-
-            prove_equal(part, PID, f"{key_base}/second call cov[{ss[i]},{ss[j]}]==GPG'+VMV' at the new inputs", lift(r3.covariance.data[i, j]), to2(specP[i][j]), assumes2, tmo, replay=replay, key=f"{key_base}/second-call/cov[{ss[i]},{ss[j]}]", info={"program": p.id, "cse": cse, "what": "second-call"}, all_vars=allv2, witness_constraints=wit2)
-
-    # inputs unmodified: every element of the inputs is the same term before and after the call
-    same = all(lift(a).eq(lift(b)) for A, B in zip(snap, after) for a, b in zip(A.reshape(-1), B.reshape(-1)))
-    from .common import Q
-
-    part.record(Q("unsat" if same else "sat", None, 0.0, ""), f"{key_base}/inputs-unmodified (term identity)")
-    if not same:
-        e = seeded_envs(random.Random(seed), 1)[0]
-        path = write_replay(PID, {"key": key_base + "/purity", "info": {"program": p.id, "cse": cse}, "inputs": e})
-        part.violation(key_base + "/purity", "process_model modified its input objects (symbolic terms differ after the call)", path)
-    rep_same = all(lift(a).eq(lift(b)) for a, b in zip(r1.state.data.reshape(-1), r2.state.data.reshape(-1))) and all(lift(a).eq(lift(b)) for a, b in zip(r1.covariance.data.reshape(-1), r2.covariance.data.reshape(-1)))
-    if rep_same:
-        part.record(Q("unsat", None, 0.0, ""), f"{key_base}/repeat-identical (term identity)")
-    else:
+            prove_equal(part, PID, f"{key_base}/state[{s}]==f", lift(r1.state.data[i, 0]), specf[s], assumes, tmo, replay=replay, key=f"{key_base}/state[{s}]", info={"program": p.id, "cse": cse, "what": "state", "name": s}, all_vars=allv, witness_constraints=wit, seeded_envs=seeded_envs)
         for i in range(n):
-            prove_equal(part, PID, f"{key_base}/repeat state[{ss[i]}]", lift(r1.state.data[i, 0]), lift(r2.state.data[i, 0]), assumes, tmo, key=f"{key_base}/purity")
             for j in range(n):
-                prove_equal(part, PID, f"{key_base}/repeat cov[{i},{j}]", lift(r1.covariance.data[i, j]), lift(r2.covariance.data[i, j]), assumes, tmo, key=f"{key_base}/purity")
+
+                def replay(e, i=i, j=j):
+                    got = float_predict(p, cse, e)
+                    _, Pn = spec_float(p, e)
+                    return {"impl": float(got["cov"][i, j]), "spec": float(Pn[i, j])}
+
+                prove_equal(part, PID, f"{key_base}/cov[{ss[i]},{ss[j]}]==GPG'+VMV'", lift(r1.covariance.data[i, j]), specP[i][j], assumes, tmo, replay=replay, key=f"{key_base}/cov[{ss[i]},{ss[j]}]", info={"program": p.id, "cse": cse, "what": "cov", "i": i, "j": j}, all_vars=allv, witness_constraints=wit, seeded_envs=seeded_envs)
+
+        # second call on the same filter object with fresh inputs == specification at the new inputs
+        assumes2 = assumes + [to2(a) for a in assumes]
+
+        def float_second(e):
+            e1 = {k_: v for k_, v in e.items() if not k_.endswith("__2") and not k_.startswith("P2_")}
+            e2 = dict(e1)
+            for nm in env:
+                if nm not in p.calibration:
+                    e2[nm] = e.get(env2[nm].decl().name(), 0.25)
+            for (a, b) in Pvars:
+                e2[f"P_{a}_{b}"] = e.get(f"P2_{a}_{b}", 1.0 if a == b else 0.0)
+            for (a, b) in Pvars:
+                e1.setdefault(f"P_{a}_{b}", 1.0 if a == b else 0.0)
+            for nm in env:
+                e1.setdefault(nm, 0.25)
+            return e1, e2
+
+        def float_predict_sequence(e):
+            e1, e2 = float_second(e)
+
+            def go():
+                with quiet():
+                    pnv, snv = pyh.noise_vals_from_env(p, e1)
+                    ekf = pyh.build_ekf_float(p, e1, cse=cse, pn=pnv, sn=snv)
+                    out = None
+                    for ee in (e1, e2):
+                        st_ = ekf.State(**{s_: float(ee[s_]) for s_ in p.state})
+                        ct_ = ekf.Control(**{c_: float(ee[c_]) for c_ in p.control})
+                        cov_ = ekf.Covariance.from_data(pyh.float_cov(p.state, ee))
+                        r_ = ekf.process_model(float(ee[p.dt]), st_, cov_, ct_)
+                        out = {"state": r_.state.data.reshape(-1).copy(), "cov": r_.covariance.data.copy()}
+                    return out, e2
+
+            return pyh.gate_guard(go)
+
+        allv2 = dict(allv)
+        allv2.update({v.decl().name(): v for v in env2.values()})
+        for k_, v in Pvars2.items():
+            allv2[f"P2_{k_[0]}_{k_[1]}"] = v
+        wit2 = wit + pyh.diag_dominant(p.state, prefix="P2")
+        for i, s in enumerate(ss):
+
+            def replay(e, i=i):
+                got, e2 = float_predict_sequence(e)
+                f_, _ = spec_float(p, e2)
+                return {"impl": float(got["state"][i]), "spec": f_[i]}
+
+            prove_equal(part, PID, f"{key_base}/second call state[{s}]==f at the new inputs", lift(r3.state.data[i, 0]), to2(specf[s]), assumes2, tmo, replay=replay, key=f"{key_base}/second-call/state[{s}]", info={"program": p.id, "cse": cse, "what": "second-call"}, all_vars=allv2, witness_constraints=wit2)
+        for i in range(n):
+            for j in range(i, n):
+
+                def replay(e, i=i, j=j):
+                    got, e2 = float_predict_sequence(e)
+                    _, Pn = spec_float(p, e2)
+                    return {"impl": float(got["cov"][i, j]), "spec": float(Pn[i, j])}
+
+                prove_equal(part, PID, f"{key_base}/second call cov[{ss[i]},{ss[j]}]==GPG'+VMV' at the new inputs", lift(r3.covariance.data[i, j]), to2(specP[i][j]), assumes2, tmo, replay=replay, key=f"{key_base}/second-call/cov[{ss[i]},{ss[j]}]", info={"program": p.id, "cse": cse, "what": "second-call"}, all_vars=allv2, witness_constraints=wit2)
+
+        # inputs unmodified: every element of the inputs is the same term before and after the call
+        same = all(lift(a).eq(lift(b)) for A, B in zip(snap, after) for a, b in zip(A.reshape(-1), B.reshape(-1)))
+        from .common import Q
+
+        part.record(Q("unsat" if same else "sat", None, 0.0, ""), f"{key_base}/inputs-unmodified (term identity)")
+        if not same:
+            e = seeded_envs(random.Random(seed), 1)[0]
+            path = write_replay(PID, {"key": key_base + "/purity", "info": {"program": p.id, "cse": cse}, "inputs": e})
+            part.violation(key_base + "/purity", "process_model modified its input objects (symbolic terms differ after the call)", path)
+        rep_same = all(lift(a).eq(lift(b)) for a, b in zip(r1.state.data.reshape(-1), r2.state.data.reshape(-1))) and all(lift(a).eq(lift(b)) for a, b in zip(r1.covariance.data.reshape(-1), r2.covariance.data.reshape(-1)))
+        if rep_same:
+            part.record(Q("unsat", None, 0.0, ""), f"{key_base}/repeat-identical (term identity)")
+        else:
+            for i in range(n):
+                prove_equal(part, PID, f"{key_base}/repeat state[{ss[i]}]", lift(r1.state.data[i, 0]), lift(r2.state.data[i, 0]), assumes, tmo, key=f"{key_base}/purity")
+                for j in range(n):
+                    prove_equal(part, PID, f"{key_base}/repeat cov[{i},{j}]", lift(r1.covariance.data[i, j]), lift(r2.covariance.data[i, j]), assumes, tmo, key=f"{key_base}/purity")
+    assumes = base_assumes
     part.sample({"program": p.id, "cse": cse, "cov[0][0]": str(z3.simplify(lift(r1.covariance.data[0, 0])))[:200]})
     return part.d
 
 
 def programs_for(tier, seed):
     if tier == "quick":
-        return [CP.P1(), CP.P3(), CP.P10(), CP.P3().restrict(control=False), CP.P3().restrict(calibration=False)]
+        return [CP.P1(), CP.P3(), CP.P10(), CP.P12(), CP.P3().restrict(control=False), CP.P3().restrict(calibration=False)]
     ps = CP.all_fixed() + CP.presence_variants(CP.P3())[1:] + CP.presence_variants(CP.P10())[1:]
     ps += [CP.random_program(seed, i) for i in range(8)]
     return ps
@@ -286,6 +365,11 @@ def replay(path):
     ps = {p.id: p for p in programs_for("thorough", int(r.get("seed", 0)))}
     p = ps[info["program"]]
     e = r["inputs"]
+    if info.get("what") == "aliasing":
+        probs = float_alias_problems(p, info["cse"], e["first"], e["second"])
+        print(probs)
+        print("REPRODUCED" if probs else "not reproduced")
+        return 1 if probs else 0
     if info.get("what") == "second-call":
         print("second-call obligation: re-run bin/check C04 (the replay needs the two-call sequence); inputs:", e)
         return 1
